@@ -147,8 +147,8 @@ type connState struct {
 	onClose             atomic.Int64
 	// closeJobRan: tick at which the close handling ran - a job the close callback queues with
 	// MustExecute, as nbhttp does with its own close handling
-	closeJobRan atomic.Int64
-	harnessCloses       bool
+	closeJobRan   atomic.Int64
+	harnessCloses bool
 }
 
 type env struct {
